@@ -23,7 +23,7 @@ from strengths.units import UnitValue, UnitArray  # noqa: E402
 from strengths.rdnetwork import Species, RDNetwork, Reaction  # noqa: E402
 from strengths.rdgridspace import RDGridSpace  # noqa: E402
 from strengths.rdgraphspace import RDGraphSpace, RDGraphSpaceNode  # noqa: E402
-from strengths.rdsystem import RDSystem, rdsystem_from_dict  # noqa: E402
+from strengths.rdsystem import RDSystem, rdsystem_from_dict, load_rdsystem  # noqa: E402
 from strengths.rdspace import rdspace_from_dict  # noqa: E402
 from strengths.coarsegrain import grid_to_graph  # noqa: E402
 
@@ -497,9 +497,14 @@ def case_to_dict(case):
     sp = case["space"]
     omit = case.get("omit_units", ())       # levels whose "units" key is left out (documented default: "inherit")
 
+    modes = case.get("units_mode", {})      # level -> "dict" | "absent" | "inherit" | "default"
+
     def with_units(d, level, k):
-        if level not in omit:
+        mode = modes.get(level, "absent" if level in omit else "dict")
+        if mode == "dict":
             d["units"] = uq.sysdict(D.USYS[k])
+        elif mode in ("inherit", "default"):
+            d["units"] = mode
         return d
     if sp["type"] == "grid":
         space = {"type": "grid", "w": sp["w"], "h": sp["h"], "d": sp["d"], "cell_env": list(sp["env"]), "cell_volume": jq(sp["vol"])}
@@ -515,8 +520,36 @@ def case_to_dict(case):
 
 def _case_dict(case, out, stats):
     """The same defaults when the system is built from its documented dictionary without "state"/"chemostats"."""
-    system = rdsystem_from_dict(case_to_dict(case))
-    check_defaults(case, system, out, stats, site="from_dict" + (":inherited-units-" + "+".join(case["omit_units"]) if case.get("omit_units") else ""))
+    d = case_to_dict(case)
+    files = case.get("files", "one-dict")
+    if files == "one-dict":
+        system = rdsystem_from_dict(d)
+    else:
+        import json
+        import shutil
+        import tempfile
+        tmp = tempfile.mkdtemp(prefix="c13_")
+        try:
+            for key in ("network", "space"):
+                if key in files:
+                    with open(tmp + "/%s.json" % key, "w", encoding="utf-8") as f:
+                        json.dump(d[key], f, ensure_ascii=False)
+                    d[key] = "%s.json" % key
+            with open(tmp + "/system.json", "w", encoding="utf-8") as f:
+                json.dump(d, f, ensure_ascii=False)
+            system = load_rdsystem(tmp + "/system.json")
+        finally:
+            shutil.rmtree(tmp, ignore_errors=True)
+        stats["systems_loaded_from_files"] = stats.get("systems_loaded_from_files", 0) + 1
+    detail = ""
+    if case.get("omit_units"):
+        detail = ":inherited-units-" + "+".join(case["omit_units"])
+    if case.get("units_mode"):
+        um = case["units_mode"]
+        detail = ":units[%s]" % ",".join("%s=%s" % (k, um[k]) for k in ("network", "species", "space", "nodes") if k in um)
+    if files != "one-dict":
+        detail += ":files[%s]" % files
+    check_defaults(case, system, out, stats, site="from_dict" + detail)
     getter_pass(case, system.network, system, out, stats, forms="all", tag="from_dict")
 
 
@@ -1797,7 +1830,49 @@ def sp_dict(tier):
                         for ni in range(len(nets)):
                             seeds.append(("inherit", omit, sys_us, other, form, shi, ni))
 
+    # every way of writing the "units" key at every nested level, one dictionary and separate files
+    UM = ("dict", "absent", "inherit", "default")
+    mshapes = [("grid", (2, 1, 2), [0, 1, 1, 0]), ("graph", 3, [1, 0, 1])]
+    for mnet in UM:
+        for mspe in UM:
+            for mspa in UM:
+                for mnod in UM:
+                    for sys_us in range(3):
+                        # a species that inherits under a network whose units differ from the system's is ambiguous
+                        # (documentation: the system's; code: the network's) - not enumerated
+                        net_res = {"dict": (sys_us + 1) % 3, "default": 0}.get(mnet, sys_us)
+                        if mspe in ("absent", "inherit") and net_res != sys_us:
+                            continue
+                        for shi in range(2):
+                            if mshapes[shi][0] == "grid" and mnod != "dict":
+                                continue
+                            for form in ("bare", "mixedjson"):
+                                for files in ("one-dict", "network+space"):
+                                    seeds.append(("modes", (mnet, mspe, mspa, mnod), sys_us, shi, form, files))
+    for sys_us in range(3):
+        for shi in range(2):
+            for mode in ("absent", "inherit", "default"):
+                for files in ("network", "space"):
+                    seeds.append(("modes", (mode, mode, mode, mode), sys_us, shi, "bare", files))
+
     def expand(seed):
+        if seed[0] == "modes":
+            _, (mnet, mspe, mspa, mnod), sys_us, shi, form, files = seed
+            net_us = {"dict": (sys_us + 1) % 3, "default": 0}.get(mnet, sys_us)
+            sp_us = {"dict": (sys_us + 2) % 3, "default": 0}.get(mspe, net_us)
+            space_us = {"dict": (sys_us + 2) % 3, "default": 0}.get(mspa, sys_us)
+            node_us = {"dict": (sys_us + 1) % 3, "default": 0}.get(mnod, space_us)
+            roles = (sp_us, net_us, space_us, node_us, sys_us)
+            ni = (sys_us + shi) % len(nets)
+            netp = network_part(ENV_LISTS[2][(ni + shi) % 2], nets[ni][0], nets[ni][1], roles, form)
+            spp = space_part(mshapes[shi], roles, form, k=shi)
+            if mspe != "dict":
+                for spc in netp["species"]:
+                    spc["us"] = sp_us
+            if mnod != "dict" and spp["space"]["type"] == "graph":
+                for nd in spp["space"]["nodes"]:
+                    nd["us"] = node_us
+            return merge_case("dict", netp, spp, units_mode={"network": mnet, "species": mspe, "space": mspa, "nodes": mnod}, files=files)
         if seed[0] == "inherit":
             _, omit, sys_us, other, form, shi, ni = seed
             # levels that keep their own "units" use (other, other+1, ...); omitted levels resolve to their parent's
@@ -1825,7 +1900,10 @@ def sp_dict(tier):
             "units at every level: 3^4 unit-system roles (species, network, space, system) x value forms {bare, text, mixed} x "
             "%d grids x 3 networks; (b) grids AND graphs with the \"units\" key left out (documented default \"inherit\") at {no level "
             "(graphs), space+nodes, every level below the system, nodes only, species only} x system units (3) x units of the "
-            "remaining levels (3) x value forms x 2 grids + 2 graphs x 3 networks; all address forms" % len(shapes))
+            "remaining levels (3) x value forms x 2 grids + 2 graphs x 3 networks; (c) the \"units\" key of network / species / space / node written as {dictionary, absent, "
+            "\"inherit\", \"default\"} independently (4^4 on a graph, 4^3 on a grid; the ambiguous 'species inherits under a network "
+            "with other units' excluded) x system units (3) x {bare, mixed} x {one dictionary, system.json + network.json + "
+            "space.json loaded by load_rdsystem} + network-only / space-only files; all address forms" % len(shapes))
     return name, seeds, expand
 
 
